@@ -7,7 +7,7 @@ MEMSHIM = ("double-free", "bad-layout", "bad-free", "bad-realloc", "canary", "us
 
 FATAL = {
     "C01": {"always": ("TextOK", "ResultOK", "Abort"), "must_exercise": ("InlineEdit", "Growth"), "conv": ("BigOpOK", "LoopOK")},
-    "C02": {"always": ("Isolation", "StaticsOK"), "shim": ("shared-write",), "heap": ("shared-write", "shared-realloc"), "must_exercise": ("Isolation",)},
+    "C02": {"always": ("Isolation", "StaticsOK"), "shim": ("shared-write",), "heap": ("shared-write", "shared-realloc"), "conv": ("BigOpOK",), "must_exercise": ("Isolation",)},
     "C03": {"always": ("RcOK", "BlocksOK", "NoResizeShared", "EndClean", "Abort"), "shim": MEMSHIM, "heap": ("use-after-free", "double-free", "underflow", "free-while-referenced", "leak", "shim:", "abort", "shared-realloc"),
             "must_exercise": ("NoResizeShared",)},
     # the accounting predicates count against C05 from the step at which an allocation was refused on
@@ -82,7 +82,7 @@ def matrix(stages):
 
 PROFILES = {
     "C01": {"quick": [CORE4, SEED2, SCALE, dq("mixed")], "thorough": [CORE5, SEED3, CORE3H, FINAL2, SIM, SCALE, dt("mixed"), dt("all")]},
-    "C02": {"quick": [CORE3, SEED2, FAIL2, SIZES2, dq("all", True), SUITEQ], "thorough": [CORE4, SEED3, CORE3H, SEED3H, FAILP, SIZES2, SIM, PROOF, dt("all", True), SUITET]},
+    "C02": {"quick": [CORE3, SEED2, FAIL2, SIZES2, SCALE, dq("all", True), SUITEQ], "thorough": [CORE4, SEED3, CORE3H, SEED3H, FAILP, SIZES2, SIM, PROOF, SCALE, dt("all", True), SUITET]},
     "C03": {"quick": [CORE3, SEED2, FAIL2, PROOF, dq("all", True), SUITEQ], "thorough": [CORE4, SEED3, CORE3H, SEED3H, FAILP, SIZES2, SIM, PROOF, dt("all", True), SUITET]},
     "C04": {"quick": [conc("own2", "{1,2}", "cQuick2", sample_every=40), conc("lend3", "{1,2,3}", "cLend2", sample_every=40), conc("from2", "{1,2}", "cFrom2", sample_every=40)],
             "thorough": [conc("own2", "{1,2}", "cQuick2", sample_every=10), conc("lend3", "{1,2,3}", "cLend2", sample_every=10), conc("from2", "{1,2}", "cFrom2", sample_every=10),
